@@ -166,9 +166,22 @@ def check(ctx):
                 else:
                     p = pads[0]
                     g = o.env.get("self")
-                    if p[2] != Sym("USER_BOUNDARY"):
+                    # the caller's values themselves, or a spelling of them that pad() resolves to the same rule and fill
+                    # value in force (e.g. already completed with the axis defaults - completing is idempotent)
+                    same_b = p[2] == Sym("USER_BOUNDARY")
+                    same_f = p[3] == Sym("USER_FILL")
+                    if not (same_b and same_f):
+                        from .c02 import in_force
+
+                        try:
+                            want_if, got_if = in_force(P, Sym("USER_BOUNDARY"), Sym("USER_FILL")), in_force(P, p[2], p[3])
+                        except Unmodelled:
+                            want_if = got_if = None
+                        if want_if is not None and got_if is not None:
+                            same_b, same_f = same_b or got_if[0] == want_if[0], same_f or got_if[1] == want_if[1]
+                    if not same_b:
                         ctx.report("R09.3", fi, "boundary -> pad", f"cell {inst}: pad() receives boundary={p[2]!r} instead of the caller's `boundary`")
-                    elif p[3] != Sym("USER_FILL"):
+                    elif not same_f:
                         ctx.report("R09.3", fi, "fill_value -> pad", f"cell {inst}: pad() receives fill_value={p[3]!r} instead of the caller's `fill_value`")
                     elif p[4] is not g:
                         ctx.report("R09.3", fi, "grid -> pad", f"cell {inst}: pad() is not given this grid")
